@@ -73,6 +73,14 @@ def real_outputs(inp):
     except Exception as e:
         ways.append(('ctor-bytes', e))
     try:
+        p = mido.Parser()
+        h = len(inp) // 2
+        p.feed(bytearray(inp[:h]))
+        p.feed(bytes(inp[h:]))
+        ways.append(('feed-bytes-halves', list(p)))
+    except Exception as e:
+        ways.append(('feed-bytes-halves', e))
+    try:
         tk = Tokenizer()
         for b in inp:
             tk.feed_byte(b)
